@@ -21,6 +21,50 @@ def oracle(case, r):
     return None
 
 
+def record_lengths(rep, dev, tier, rng):
+    """The content length the writer stores in each record header (and in the
+    index entry) = (size_in_bytes + 4) / 2 of THAT shape: sequences of shapes
+    of one type with different sizes, read off the real bytes."""
+    import struct
+    import cases as C
+    wcases, metas = [], []
+    for code in shapes.ALL_CODES:
+        for rep_i in range(4 if tier == "thorough" else 2):
+            n = rng.randint(2, 4)
+            specs = [shapes.gen_ctor(rng, code, "mixed", True, 1 + 2 * k, 2 + 3 * k) for k in range(n)]
+            rng.shuffle(specs)
+            wcases.append(C.whist_case(True, 0, [("w", sp) for sp in specs]))
+            metas.append(specs)
+    sizes = sfv.run_impl(dev, [[3] + sp for specs in metas for sp in specs])
+    impl = stages.correspondence(rep, "reclen", dev, wcases, "whist(record lengths)")
+    k, nfail = 0, 0
+    for c, specs, r in zip(wcases, metas, impl):
+        res = C.parse_whist(r)
+        want = [sizes[k + i][1] for i in range(len(specs))]
+        k += len(specs)
+        if "special" in res:
+            continue
+        shp, shx, pos, msg = res["shp"]["buf"], res["shx"]["buf"], 100, None
+        for i, size in enumerate(want):
+            num, words = struct.unpack(">ii", shp[pos:pos + 8])
+            off, xwords = struct.unpack(">ii", shx[100 + 8 * i:108 + 8 * i])
+            if words * 2 != size + 4:
+                msg = "record %d: header stores %d words, size_in_bytes() + 4 = %d bytes" % (i + 1, words, size + 4)
+            elif xwords != words or off * 2 != pos:
+                msg = "index entry %d (%d, %d) does not match the record at byte %d with %d words" % (i, off, xwords, pos, words)
+            if msg:
+                break
+            pos += 8 + size + 4
+        if not msg and pos != len(shp):
+            msg = "records do not fill the file: %d of %d bytes" % (pos, len(shp))
+        rep.dist("record_length_files")
+        if msg:
+            nfail += 1
+            if nfail == 1:
+                rep.violation({"kind": "oracle", "what": msg, "case_kind": "whist", "case": c})
+    rep.cov["record_length_oracle"] = {"files": len(wcases), "failing": nfail}
+
+
 def run(rep, tier, rng):
     stages.proof_stage(rep, "C18")
     dev = sfv.build_harness("dev")
@@ -48,6 +92,7 @@ def run(rep, tier, rng):
         rep.dist("ctor_panic" if r[0] == 2 else "encoded")
         if r[0] == 0:
             rep.dist("type_%s" % shapes.TYPE_NAMES[c[1]])
+    record_lengths(rep, dev, tier, rng)
     rep.assumptions += ["shapes the constructors refuse (no part, 0/1-vertex polyline parts, empty multipoint) are covered "
                         "by the theorem (all shape values) and by the reader-built values of C03/C01 cases",
                         "content-length field of written record headers: theorem C18_record_len plus the writer cases of C02/C04"]
